@@ -171,4 +171,10 @@ def effectiveKnown (system user : Known) : Known :=
 def sshClientConnect2 (system user : Known) (presented : Key) (policyAccepts : Bool) : Outcome :=
   sshClientConnect (effectiveKnown system user) presented policyAccepts
 
+/-- SSHClient.connect with the GSS-API option: the host-key block is skipped only when a gss-* key exchange was
+actually NEGOTIATED (`transport.gss_kex_used`: the host was authenticated by GSS-API) - not merely requested
+(`gss_kex=True` against a server that offers no gss-* method runs an ordinary key exchange) -/
+def sshClientConnectGss (gssKexUsed : Bool) (system user : Known) (presented : Key) (policyAccepts : Bool) : Outcome :=
+  if gssKexUsed then .authenticate else sshClientConnect2 system user presented policyAccepts
+
 end PV.ClientGuard
